@@ -15,17 +15,19 @@ TRUSTED_BASE += [
     "only answers when a factor 2 away from the threshold",
 ]
 ASSUMPTIONS = [
+    "operation histories offer only tables that are exactly valid or clearly invalid (a negative entry or a row sum off by >= 1/64; "
+    "the library's validator tolerates 1e-6), as required by Spec.op_ok",
     "beliefs have exactly S entries (the C++ indexes b[s] unchecked)",
     "exact agreement is claimed on dyadic inputs only (every intermediate fits in 53 bits); "
     "on general doubles the results agree within 1e-9 (abs+rel)",
 ]
-RULE = ("cases from props/C05.py gen(): random POMDPs S 1..6 (S>=3 in 80%), A 1..3, O 1..4, rejected when T and O are invariant "
-        "under a non-identity state permutation or some T_a is symmetric; 3-6 beliefs per model (corners, faces, interior); "
-        "all (a,o) per case; 'bel' cases (78%): dense, sparse and user-defined model built once; 10% of them are 'tiny' cases where "
-        "some observation has positive probability 2^-21..2^-33 (tag -t); 'reset' cases (12%): eight variants built through the "
-        "(O,S,A) constructor + setters (container and matrix overloads), re-set with a second table set that has zeros where the "
-        "first / the constructor had mass, and dense<->sparse conversions, judged against the tables supplied last; "
-        "non-trivial = S >= 3; distinct by md5 of the case line")
+RULE = ("cases from props/C05.py gen(): random POMDPs S 1..6 (S>=3 in 80% of 'bel' cases), A 1..3, O 1..4, rejected when T and O are "
+        "invariant under a non-identity state permutation or some T_a is symmetric; 3-6 beliefs per model (corners, faces, interior); "
+        "all (a,o) per case. Kinds: 'bel' (54%; dense, sparse, user-defined model built once; 18% of the dyadic ones get an exactly "
+        "constant observation column/table), 'tiny' bel cases (10%; some observation has probability 2^-21..2^-33), 'reset' (12%; eight "
+        "construction/re-set paths), 'hist' (14%; operation history on one live dense and one live sparse object: constructor, then 2-4 "
+        "setter calls with valid and clearly invalid tables through both overloads, belief updates judged after every call against the "
+        "tables of the last accepted calls), 'seq' (10%; filtering along 2-5 (a,o) pairs). non-trivial = S >= 3; distinct by md5 of the case line")
 THOROUGH_SEEDS = 3
 SEARCH_SEEDS = 2
 CASE_TIMEOUT = 20
@@ -145,6 +147,26 @@ def _case(rng, regime):
     if mo is None:
         return None
     T, Ob = mo
+    # proof case-split boundary: an observation column that is exactly constant over s' (the observation
+    # carries no information: posterior = prediction), either one column or the whole table of an action
+    if regime == "dy" and rng.random() < 0.18:
+        a0 = rng.randrange(A)
+        if rng.random() < 0.5 or O == 1:
+            row = _dist(rng, O, den, 0.2)
+            Ob[a0] = [list(row) for _ in range(S)]
+        else:
+            o0 = rng.randrange(O)
+            c = Fraction(rng.randint(1, den - 1), den)
+            others = [o for o in range(O) if o != o0]
+            for s1 in range(S):
+                rest = _dist(rng, len(others), den, 0.3)
+                row = [Fraction(0)] * O
+                row[o0] = c
+                for o, x in zip(others, rest):
+                    row[o] = x * (1 - c)
+                Ob[a0][s1] = row
+        if _symmetric(S, A, O, T, Ob):
+            return None
     beliefs = _beliefs(rng, S, 64 if regime == "dy" else den)
     return _finish(rng, "bel", regime, S, A, O, [(T, Ob, _rewards(rng, S, A, regime))], beliefs)
 
@@ -245,6 +267,128 @@ def _case_reset(rng, regime):
                    [(T1, Ob1, _rewards(rng, S, A, regime)), (T2, Ob2, _rewards(rng, S, A, regime))], beliefs)
 
 
+def _corrupt(rng, table, den):
+    """copy of a valid table [a][row][col] with one or two rows made invalid (clearly: off by >= 1/64)"""
+    t = [[list(r) for r in M] for M in table]
+    for _ in range(rng.choice([1, 1, 2])):
+        a = rng.randrange(len(t)); i = rng.randrange(len(t[a])); row = t[a][i]; j = rng.randrange(len(row))
+        how = rng.choice(["sum_hi", "sum_lo", "neg", "neg_sum1"]) if len(row) > 1 else rng.choice(["sum_hi", "sum_lo", "neg"])
+        step = Fraction(rng.choice([1, 2, 8]), 64)
+        if how == "sum_hi":
+            row[j] += step                                  # row sums to more than one
+        elif how == "sum_lo":
+            jj = max(range(len(row)), key=lambda x: row[x])
+            row[jj] -= min(step, row[jj])                   # row sums to less than one, still non-negative
+            if sum(row) == 1: row[jj] += step
+        elif how == "neg":
+            row[j] = -step - row[j] * 0                     # a negative entry (sum changes too)
+        else:
+            k = (j + 1) % len(row)                          # a negative entry, row still sums to one
+            row[k] += row[j] + step
+            row[j] = -step
+    return t
+
+
+def _case_hist(rng, regime):
+    """operation history on live model objects: all-in-one constructor, then 2-4 setter calls (valid and
+    invalid tables, container and matrix overloads), belief updates after every call."""
+    S = rng.choice([1, 2, 3, 3, 4])
+    A = rng.choice([1, 2])
+    O = rng.choice([1, 2, 2, 3])
+    den = rng.choice([4, 8, 16]) if regime == "dy" else rng.choice([7, 10, 100])
+    m0 = _random_model(rng, S, A, O, den, rng.choice([0.0, 0.3, 0.6]))
+    if m0 is None:
+        return None
+    T, Ob = m0
+    tables0 = (T, Ob, _rewards(rng, S, A, regime))
+    ops = []
+    nops = rng.randint(2, 4)
+    bad_at = rng.randrange(nops) if rng.random() < 0.85 else -1      # most histories contain a rejected call
+    for k in range(nops):
+        name = rng.choice(["obs", "obs", "obs", "tr", "tr", "rw3", "rw2"]) if k != bad_at else rng.choice(["obs", "obs", "tr"])
+        if name in ("obs", "tr"):
+            mo = _random_model(rng, S, A, O, den, rng.choice([0.0, 0.3, 0.6]))
+            if mo is None:
+                return None
+            tab = mo[1] if name == "obs" else mo[0]
+            if k == bad_at or rng.random() < 0.15:
+                tab = _corrupt(rng, tab, den)
+            ops.append((name, rng.choice(["c", "m"]), [x for M in tab for r in M for x in r]))
+        elif name == "rw3":
+            R3 = _rewards(rng, S, A, regime)
+            ops.append((name, "c", [x for Rs in R3 for r in Rs for x in r]))
+        else:
+            rden = 4 if regime == "dy" else 10
+            ops.append((name, "m", [Fraction(rng.randint(-16, 16), rden) for _ in range(S * A)]))
+    beliefs = _beliefs(rng, S, 64 if regime == "dy" else den, few=True)
+    if regime == "gen":
+        T0 = [[_jig(rng, r) for r in Ta] for Ta in T]
+        O0 = [[_jig(rng, r) for r in Oa] for Oa in Ob]
+        R0 = [[[float(x) * (1.0 + rng.random()) for x in r] for r in Rs] for Rs in tables0[2]]
+        tok = lambda x: float(x).hex()
+        def conv(name, vals, K):
+            if name in ("obs", "tr"):
+                # jiggle valid rows (renormalised); rows that are invalid keep their exact (clearly invalid) values
+                out = []
+                for i in range(0, len(vals), K):
+                    row = vals[i:i + K]
+                    out += _jig(rng, row) if (sum(row) == 1 and all(x >= 0 for x in row)) else [float(x) for x in row]
+                return out
+            return [float(x) * (1.0 + rng.random()) for x in vals]
+        ops = [(nm, ov, conv(nm, v, O if nm == "obs" else S)) for (nm, ov, v) in ops]
+        beliefs = [_jig(rng, b) for b in beliefs]
+    else:
+        T0, O0, R0 = tables0
+        tok = lambda x: _tok(x, "dy")
+    toks = ["hist", regime, str(S), str(A), str(O)] + _emit_tables(S, A, O, T0, O0, R0, tok)
+    toks.append(str(len(ops)))
+    for (nm, ov, v) in ops:
+        toks += [nm, ov] + [tok(x) for x in v]
+    toks.append(str(len(beliefs)))
+    for b in beliefs:
+        toks += [tok(x) for x in b]
+    return " ".join(toks)
+
+
+def _case_seq(rng, regime):
+    """filtering along a history of 2-5 (action, observation) pairs, mostly of positive probability"""
+    S = rng.choice([1, 2, 3, 3, 4, 5])
+    A = rng.choice([1, 2, 3])
+    O = rng.choice([2, 2, 3, 4])
+    den = rng.choice([4, 8, 16]) if regime == "dy" else rng.choice([7, 10, 100])
+    mo = _random_model(rng, S, A, O, den, rng.choice([0.0, 0.3, 0.6]))
+    if mo is None:
+        return None
+    T, Ob = mo
+    b = _dist(rng, S, 64 if regime == "dy" else den, rng.choice([0.0, 0.5]))
+    tau = list(b)
+    h = []
+    for _ in range(rng.randint(2, 5)):
+        a = rng.randrange(A)
+        nxt = {}
+        for o in range(O):
+            nxt[o] = [Ob[a][s1][o] * sum(tau[s] * T[a][s][s1] for s in range(S)) for s1 in range(S)]
+        pos = [o for o in range(O) if sum(nxt[o]) > 0]
+        zer = [o for o in range(O) if sum(nxt[o]) == 0]
+        o = rng.choice(zer) if (zer and (not pos or rng.random() < 0.12)) else rng.choice(pos)
+        h.append((a, o))
+        tau = nxt[o]
+    if regime == "gen":
+        T = [[_jig(rng, r) for r in Ta] for Ta in T]
+        Ob = [[_jig(rng, r) for r in Oa] for Oa in Ob]
+        b = _jig(rng, b)
+        R3 = [[[float(x) * (1.0 + rng.random()) for x in r] for r in Rs] for Rs in _rewards(rng, S, A, regime)]
+        tok = lambda x: float(x).hex()
+    else:
+        R3 = _rewards(rng, S, A, regime)
+        tok = lambda x: _tok(x, "dy")
+    toks = ["seq", regime, str(S), str(A), str(O)] + _emit_tables(S, A, O, T, Ob, R3, tok)
+    toks += [tok(x) for x in b] + [str(len(h))]
+    for (a, o) in h:
+        toks += [str(a), str(o)]
+    return " ".join(toks)
+
+
 def gen(rng, tier):
     n = {"quick": 320, "thorough": 1500, "search": 600}[tier]
     out = []
@@ -254,6 +398,10 @@ def gen(rng, tier):
             c = _case_tiny(rng)
         elif u < 0.22:
             c = _case_reset(rng, "dy" if rng.random() < 0.8 else "gen")
+        elif u < 0.36:
+            c = _case_hist(rng, "dy" if rng.random() < 0.8 else "gen")
+        elif u < 0.46:
+            c = _case_seq(rng, "dy" if rng.random() < 0.8 else "gen")
         else:
             c = _case(rng, "dy" if rng.random() < 0.8 else "gen")
         if c is not None:
